@@ -144,7 +144,7 @@ def run(tier):
     import random
     rng = random.Random(core.seed() + 16)
     pool = [p["src"] for p in progs if p["ver"] == "7.4"]
-    files = rng.sample(pool, min(len(pool), 200 if tier == "quick" else 2000))
+    files = rng.sample(pool, min(len(pool), 200 if tier == "quick" else 2000)) + cli.big_sources(pool, sizes=(80000,))
     for sig, rep in cli.check_cli(check, wp, files, "7.4", [["-d", "-p"]], procs_list=(1, 16) if tier == "quick" else (1, 2, 4, 16)):
         check.violation(sig, rep)
     check.assumptions += ["NodeSchema.tla (frozen); go/parser as the judge of Go syntax; the dumper terminates each literal "
